@@ -209,8 +209,10 @@ def compare_traces(model_path, impl_path, levels):
     """first divergence per history at the given line prefixes -> (n_hist, n_obs, [divergences])"""
     divs, nh, nobs = [], 0, 0
     mh = dict(split_histories(model_path))
+    seen = set()
     for hid, ilines in split_histories(impl_path):
         nh += 1
+        seen.add(hid)
         mlines = mh.get(hid)
         if mlines is None:
             divs.append(dict(hid=hid, step=0, expected="<history missing in model trace>", actual=ilines[0]))
@@ -225,6 +227,9 @@ def compare_traces(model_path, impl_path, levels):
                 step = (a.split() + ["?", "?", "?"])[2]
                 divs.append(dict(hid=hid, step=step, expected=b[:600], actual=a[:600]))
                 break
+    for hid in mh:
+        if hid not in seen:
+            divs.append(dict(hid=hid, step=0, expected=mh[hid][0], actual="<history missing in implementation trace>"))
     return nh, nobs, divs
 
 
@@ -241,7 +246,7 @@ def ddmin(runner, hist_lines, prop, budget=120):
 
     def bad(sub):
         runs[0] += 1
-        return bool(runner.viols_for([head] + sub, prop, "ddmin_c"))
+        return bool(runner.viols_for([head] + sub, prop, prop + "-ddmin_c"))
     n = 2
     while len(ops) >= 2 and runs[0] < budget:
         chunk = max(1, len(ops) // n)
